@@ -7,6 +7,19 @@ from . import core
 
 
 def main():
+    # a check that is still running after VERIF_HARD_TIMEOUT seconds (default 30 min) dumps every thread's stack to
+    # stderr and ends as an infrastructure failure (exit 2), never as a verdict
+    import faulthandler, signal
+    hard = int(os.environ.get("VERIF_HARD_TIMEOUT", "1800"))
+    faulthandler.enable()
+
+    def _expired(signum, frame):
+        faulthandler.dump_traceback(all_threads=True)
+        print("INFRASTRUCTURE FAILURE: hard timeout", file=sys.stderr)
+        core.shutdown_pool()
+        os._exit(2)
+    signal.signal(signal.SIGALRM, _expired)
+    signal.alarm(hard)
     ap = argparse.ArgumentParser()
     ap.add_argument("prop")
     ap.add_argument("--tier", default=os.environ.get("VERIF_TIER", "quick"), choices=["quick", "thorough"])
